@@ -1261,6 +1261,11 @@ def _effects():
     # identifiers: the object is found under the new identifier, everything that refers to it still does
     E.append(("R1.id = 'R1x'", None, lambda w, m, h: _set(h["R1"], "id", "R1x"), {R + "R1._id": "R1x"}, ("rename", R + "R1", R + "R1x"), None))
     E.append(("b_c.id = 'b2_c'", None, lambda w, m, h: _set(h["mets"]["b_c"], "id", "b2_c"), {M + "b_c._id": "b2_c"}, ("rename", M + "b_c", M + "b2_c"), None))
+    # groups: a group that leaves the model leaves the groups it is a member of; its own members stay in the model
+    def nested(w, m, h):
+        m.add_groups([w.new("Group", "grp3", members=[h["grp2"], h["R2"]])])
+
+    E.append(("model.remove_groups([grp2])  # grp2 is a member of grp3", nested, lambda w, m, h: m.remove_groups([h["grp2"]]), {Mo + "groups": ("list", ("Group:grp1", "Group:grp3")), "Group:grp3._members": _cs(R + "R2")}, ("-Group:grp2.",), None))
     E.append(("model.add_metabolites([z_c])", None, OPS["add_metabolites"][1], {Mo + "metabolites": ("list", tuple(sorted(M + x for x in ("EX_a", "a_c", "a_e", "b_c", "c_c", "z_c")))), M + "z_c._model": "Model:toy", M + "z_c._reaction": _cs()}, (M + "z_c.",), None))
     return E
 
@@ -1325,9 +1330,11 @@ def run_effects(prog) -> Tuple[List[str], int]:
             if solver_cell(k) or k in want:
                 continue
             if k not in after:
+                if k.startswith(tuple(p_[1:] for p_ in may_appear if p_.startswith("-")) or ("\0",)):
+                    continue  # cells of an object that the operation takes out of the model
                 out.append(f"`{what}`: {k} is gone, which the operation does not document")
             elif k not in before:
-                if not k.startswith(tuple(may_appear)):
+                if not k.startswith(tuple(p_ for p_ in may_appear if not p_.startswith("-")) or ("\0",)):
                     out.append(f"`{what}`: {k} = {after[k]!r:.80} appears, which the operation does not document")
             elif before[k] != after[k]:
                 out.append(f"`{what}` also changes {k}: {before[k]!r:.100} -> {after[k]!r:.100} (everything the documentation does not name has to stay as it was)")
